@@ -910,7 +910,7 @@ func main() {
 			inputs = append(inputs, in)
 		}
 		inputs = append(inputs, corpus()...)
-		nu, np := o.Count(2200, 24000), o.Count(300, 3000)
+		nu, np := o.Count(1800, 24000), o.Count(300, 3000)
 		if o.Search {
 			nu, np = 40000, 4000
 		}
